@@ -1,6 +1,6 @@
 """C06 — signed transactions are the exact typed encodings and recover to the signer."""
 from .. import txgen
-from ..gen import both, boundary_scalar, lib_case
+from ..gen import both, boundary_scalar, lib_case, rand_bytes
 from ..ref import eth, rlp, secp
 from ..ref import tx as reftx
 from ..run.core import V
@@ -16,7 +16,7 @@ RULE = ("tx.process(json, key) events: kind rule, unsigned payload and signed by
         "spellings; distinct = distinct (document, key); non-trivial = signed bytes compared and sender recovered")
 REQUIRED = (["%s-parity%d" % (k, p) for k in txgen.KINDS for p in (0, 1)] + ["legacy-nochain-parity0", "legacy-nochain-parity1",
             "to-absent", "to-null", "to-present", "al-empty", "al-addr-noslots", "al-multi", "al-duplicate", "data-0", "data-1",
-            "data-2..55", "data-56..255", "data-256..65535", "only-one-fee-field-rejected", "missing-field-rejected",
+            "data-2..55", "data-56..255", "data-256..65535", "only-one-fee-field-rejected", "missing-field-rejected", "decoy-keys-ignored", "kind-key-null-rejected",
             "1559-without-accesslist-key"])
 
 
@@ -73,6 +73,10 @@ def judge_tx(case, obs):
         return v.bucket(xm["bucket"])
     tx = txgen.tx_from_meta(xm["tx"])
     if "ok" not in o:
+        if xm.get("decoys"):
+            # the properties do not oblige the tool to accept unknown keys; if it does, they must not change anything
+            v.nontrivial = False
+            return v.bucket("decoy-keys-rejected")
         return v.bad("C06/%s/rejected" % cls, "well-formed %s transaction rejected: %s" % (tx["kind"], o.get("err")))
     x = int(case["steps"][0]["lib"]["secret"], 16)
     if not check_signed(v, cls, tx, o["ok"], x):
@@ -96,6 +100,8 @@ def judge_tx(case, obs):
         if tx["kind"] == reftx.T1559 and not xm.get("has_al_key"):
             v.bucket("1559-without-accesslist-key")
     v.bucket("data-" + txgen.size_class(len(tx["data"])))
+    if xm.get("decoys"):
+        v.bucket("decoy-keys-ignored")
     return v
 
 
@@ -120,6 +126,28 @@ def gen(shard, rng, tier):
     for i in range(shard["count"]):
         tx = txgen.rand_tx(rng, big=shard.get("big") and i % 20 == 0)
         yield from both(make_case(rng, tx))
+        if i % 6 == 0:
+            # foreign keys that other tools use as aliases or metadata, with conflicting values: they are not fields of this format
+            t = txgen.rand_tx(rng)
+            c = make_case(rng, t, "decoy-keys")
+            import json as _json
+            doc = c["steps"][0]["lib"]["json"]
+            decoys = rng.sample([("input", '"0x%s"' % rand_bytes(rng, 4).hex()), ("type", rng.choice(['"0x0"', '"0x1"', '"0x2"', "0", "1", "2", '"legacy"'])), ("gasLimit", "%d" % rng.randrange(10**6)),
+                                 ("from", '"0x%s"' % rand_bytes(rng, 20).hex()), ("hash", '"0x%s"' % rand_bytes(rng, 32).hex()), ("v", '"0x1b"'), ("r", '"0x1"'), ("s", '"0x1"'),
+                                 ("yParity", "1"), ("chainID", "5"), ("chain_id", "7"), ("gas_price", "1"), ("Nonce", "99"), ("DATA", '"0xff"'), ("To", "null"),
+                                 ("maxFeePerBlobGas", "1"), ("blobVersionedHashes", "[]"), ("access_list", "[]"), ("accesslist", "[]"), ("value ", "1"), ("", "1")], rng.randint(1, 4))
+            inner = doc.strip()[1:-1]
+            extra = ",".join("%s:%s" % (_json.dumps(k), val) for k, val in decoys)
+            doc2 = "{" + (extra + "," + inner if rng.random() < 0.5 else inner + "," + extra) + "}"
+            c["steps"][0]["lib"]["json"] = doc2
+            c["x"]["decoys"] = [k for k, _ in decoys]
+            yield from both(c)
+            # a kind-deciding key that is present with the value null decides the kind all the same (and is then not a valid value)
+            t = txgen.rand_tx(rng, txgen.LEGACY)
+            toks = txgen.tokens_for(rng, t)
+            toks[rng.choice(["maxFeePerGas", "maxPriorityFeePerGas", "accessList"])] = "null"
+            yield from both(lib_case("tx", {"op": "tx.process", "json": txgen.render(rng, toks), "secret": "%064x" % 1},
+                                     {"cls": "kind-key-null", "expect": "reject", "bucket": "kind-key-null-rejected"}))
         if i % 10 == 0:
             # must-refuse shapes: exactly one fee-market field / a missing mandatory field
             t = txgen.rand_tx(rng, txgen.T1559)
